@@ -125,6 +125,46 @@ Theorem C19_slate_roundtrip : forall A, lawful A ->
 Proof. exact slate_roundtrip_spec. Qed.
 Print Assumptions C19_slate_roundtrip.
 
+(* the dataslate as an object (multi-step use): removing periods from the start never moves a value to another
+   period and keeps exactly the base periods that remain (a base column sitting exactly at the cut included);
+   removing periods from the end keeps the remaining columns and base columns; to_databox(span="base") returns, for
+   every name, the dataslate columns of the base span at the base periods and missing elsewhere *)
+Theorem C19_slate_remove_start : forall A (d d' : dslate A) (k : Z), 0 <= k -> ds_remove_start A d k = Ok d' ->
+  let j := Z.to_nat k in
+  ds_names A d' = ds_names A d /\
+  ds_periods A d' = skipn j (ds_periods A d) /\
+  map (fun i => nth i (ds_periods A d') 0) (ds_base A d')
+    = map (fun i => nth i (ds_periods A d) 0) (filter (fun i => Nat.leb j i) (ds_base A d)) /\
+  forall kv q t, slate_cell A (ds_data A d') kv q t = slate_cell A (ds_data A d) kv q (j + t).
+Proof. exact ds_remove_start_spec. Qed.
+Print Assumptions C19_slate_remove_start.
+
+Theorem C19_slate_remove_end : forall A (d d' : dslate A) (k : Z), 0 <= k -> ds_remove_end A d k = Ok d' ->
+  let j := Z.to_nat k in
+  (j = 0%nat -> d' = d) /\
+  (j <> 0%nat ->
+     ds_names A d' = ds_names A d /\
+     ds_periods A d' = firstn (length (ds_periods A d) - j) (ds_periods A d) /\
+     ds_base A d' = filter (fun i => Nat.ltb i (length (ds_periods A d'))) (ds_base A d) /\
+     forall kv q t, (t < length (nth q (nth kv (ds_data A d) []) []) - j)%nat ->
+       slate_cell A (ds_data A d') kv q t = slate_cell A (ds_data A d) kv q t).
+Proof. exact ds_remove_end_spec. Qed.
+Print Assumptions C19_slate_remove_end.
+
+Theorem C19_slate_to_databox_base : forall A, lawful A -> forall (d : dslate A) fr trimmed db' b0 rest,
+  ds_base A d = b0 :: rest ->
+  ds_to_databox A d fr true trimmed = Ok db' ->
+  let p0 := nth b0 (ds_periods A d) 0 in
+  let w := (Nat.min (S (last (ds_base A d) b0)) (ds_ncols A d) - b0)%nat in
+  forall nm, In nm (ds_names A d) ->
+    exists s q, nth q (ds_names A d) ""%string = nm /\ (q < length (ds_names A d))%nat /\
+      dget A db' nm = Some (ISer A ""%string s) /\ WF A s /\ s_nv s = length (ds_data A d) /\
+      forall t k, (k < length (ds_data A d))%nat ->
+        cell A s t k = if (p0 <=? t) && (t <? p0 + Z.of_nat w)
+                       then slate_cell A (ds_data A d) k q (b0 + Z.to_nat (t - p0)) else miss A.
+Proof. exact ds_to_databox_base_spec. Qed.
+Print Assumptions C19_slate_to_databox_base.
+
 (* ------------------------------------------------------------------ databox operations *)
 
 (* one operation: a name outside the operation's selection keeps its item *)
